@@ -71,6 +71,9 @@ func inAstits(stack string) bool {
 		if !seenPanic || strings.HasPrefix(l, "\t") || strings.HasPrefix(l, "runtime.") || strings.HasPrefix(l, "runtime/") {
 			continue
 		}
+		if strings.Contains(l, "go-astikit") {
+			continue // helper library: attribute the crash to whoever called it
+		}
 		return strings.Contains(l, "go-astits")
 	}
 	return false
